@@ -8,7 +8,8 @@
   (`simple_command`) in the non-portable mode and without aliases (as `List::from_str`).
   A peeked token is modelled by lexing again from the same position.
 
-  Not modelled (the parser model answers `none`, like on a syntax error): array assignments `a=(…)`,
+  Array assignments `a=(…)` are modelled since wave 3 (`parseArrayWords` = `array_values`).
+  Not modelled (the parser model answers `none`, like on a syntax error):
   the tilde expansions that `parse_tilde_everywhere` makes in assignment values and in `name=value` words of
   declaration utilities (the model refuses such words when they contain an unquoted `~`), and everything
   the model lexer does not cover.
@@ -199,6 +200,22 @@ def arrayFollows (cs : List Char) : Bool :=
   | [] => false
   | c :: _ => c = '('
 
+/-- the loop of `Parser::array_values` after the opening parenthesis: words up to `)`, newlines skipped;
+    any other token is `UnclosedArrayValue` -/
+def parseArrayWords : Nat → List Char → Option (List Word × List Char)
+  | 0, _ => none
+  | fuel + 1, cs =>
+    match lexToken cs with
+    | none => none
+    | some (t, r) =>
+      match t.id with
+      | .op o =>
+        if o = .newline then parseArrayWords fuel r
+        else if o = .closeParen then some ([], r)
+        else none
+      | .word _ => (parseArrayWords fuel r).map fun p => (t.word :: p.1, p.2)
+      | _ => none
+
 structure Builder where
   assigns : List Assign
   words : List Word
@@ -224,7 +241,17 @@ def parseSimpleLoop : Nat → Builder → List Char → Option (Builder × List 
             match assignOf t.word with
             | some (name, v) =>
               if hasUnquotedTilde v then none            -- `parse_tilde_everywhere`: not modelled
-              else if v.isEmpty && arrayFollows cs' then none   -- array assignment: not modelled
+              else if v.isEmpty && arrayFollows cs' then
+                -- `array_values`: the `(` directly after `name=` starts an array
+                match lexToken cs' with
+                | some (t, r) =>
+                  if t.id = .op .openParen then
+                    match parseArrayWords (r.length + 2) r with
+                    | some (ws, cs'') =>
+                      parseSimpleLoop fuel { b with assigns := b.assigns ++ [⟨name, .array ws⟩] } cs''
+                    | none => none
+                  else none
+                | none => none
               else parseSimpleLoop fuel { b with assigns := b.assigns ++ [⟨name, .scalar v⟩] } cs'
             | none => parseSimpleLoop fuel { b with words := b.words ++ [t.word] } cs'
           else if hasUnquotedTilde t.word && (assignOf t.word).isSome then none
